@@ -664,10 +664,10 @@ impl Prop for C11 {
     fn run(&self, ctx: &Ctx) {
         start_watchdog();
         let n = |q: u32, t: u32| ctx.tier.pick(q, t);
-        ctx.run_bytes("uni", n(100_000, 5_000_000), 200, |c, b| random_outcome(c, "uni", b));
-        ctx.run_bytes("soup", n(100_000, 5_000_000), 96, |c, b| random_outcome(c, "soup", b));
-        ctx.run_bytes("mut", n(60_000, 3_000_000), 160, |c, b| random_outcome(c, "mut", b));
-        ctx.run_bytes("wf", n(25_000, 1_500_000), 160, wf_outcome);
+        ctx.run_bytes("uni", n(100_000, 4_000_000), 200, |c, b| random_outcome(c, "uni", b));
+        ctx.run_bytes("soup", n(100_000, 4_000_000), 96, |c, b| random_outcome(c, "soup", b));
+        ctx.run_bytes("mut", n(60_000, 2_500_000), 160, |c, b| random_outcome(c, "mut", b));
+        ctx.run_bytes("wf", n(25_000, 1_200_000), 160, wf_outcome);
     }
     fn replay(&self, ctx: &Ctx, kind: &str, payload: &Value) -> Outcome {
         let bytes = unhex(payload["bytes"].as_str().unwrap_or(""));
